@@ -204,6 +204,10 @@ func runC01(c *Ctx) {
 	checkContainmentTie(c, p)
 	checkJoinLoopsComplete(c, p)
 	checkRunLiterals(c, p)
+	// shared with C03: StartLine/EndLine of a copy are the lines its words stand on - the line accounting of the tokenizer
+	// (R03.9/R03.11); shared with C04: a document that is added replaces what was stored under its key (R04.8)
+	checkLineCounter(c, p, "R03.9")
+	checkUnconditionalAdd(c, p)
 }
 
 // checkThresholdAndQ: R01.2. The threshold a caller configures is the one stored and compared with, q is derived from it,
@@ -532,6 +536,8 @@ func runC02(c *Ctx) {
 		checkMapOrder(c, p, mfn, mex.Explored())
 	}
 	checkUnconditionalAdd(c, p)
+	// shared with C03: StartLine/EndLine are set once, from the span that was scored (R03.13: no later store into a Match)
+	checkMatchImmutable(c, p)
 	// shared with C04: "Confidence is 1.0 only if R and K are word-for-word identical" needs every word to keep its own
 	// rune through the diff library (R04.6 / R04.10)
 	checkTokenIDUses(c, p)
@@ -784,6 +790,9 @@ func runC05(c *Ctx) {
 	if mf, cf := p.Func(v2pkg, "(*Classifier).match"), p.Func(v2pkg, "contains"); mf != nil && cf != nil {
 		checkOverlapWeights(c, p, mf, cf)
 	}
+	// shared with C06: whether a line is a notice is decided for every line, whatever its length in bytes (R06.6): a
+	// typographic quote is three bytes where the ASCII one is one
+	checkNoticePatternsUnconditional(c, p)
 	// shared with C03: each notice line is reported by a pseudo-match of its own, built once (R03.13) - a pseudo-match that
 	// is extended when the next line is a notice too makes the number of matches depend on blank lines between them
 	checkMatchImmutable(c, p)
@@ -1187,6 +1196,9 @@ func runC06(c *Ctx) {
 	if p == nil {
 		return
 	}
+	// shared with C04/C09: the line that is tested for being a notice is this call's line - nothing the tokenizer uses is
+	// shared between calls (R04.1)
+	matchReadOnly(c, p, "R04.1")
 	checkWordTable(c, p)
 	// R03.7
 	n := 0
@@ -2730,6 +2742,12 @@ func runC17(c *Ctx) {
 	p := c.Prog("")
 	if p == nil {
 		return
+	}
+	if c.R.Filter == nil {
+		// shared with C13: an exact occurrence is reported with the byte range the regular expression delimits (R13.4);
+		// shared with C14: the candidates are computed without goroutines of their own or state kept between calls (R14.5)
+		borrowRules(c, []string{"R13.4"}, runC13)
+		checkV1SharedWrites(c, p)
 	}
 	tkPkg := ssPkg + "/tokenizer"
 	tk := p.Func(tkPkg, "Tokenize")
